@@ -8,7 +8,8 @@ RN = {"lib/lha_file_header.c": ["extend_raw_data"]}
 
 
 def l01(smax, mode="functional", timeout=600, tier="both"):
-    return dict(name="l01.s%d%s" % (smax, ".safe" if mode == "safety" else ""), src="hdr/l01.c", defines=["S_MAX=%d" % smax], rename_defs=RN,
+    # no_shift_check: decode_ftime shifts a negative int left for DOS years >= 2044 (UB-NOTE, not a memory access; DESIGN.md section 5)
+    return dict(name="l01.s%d%s" % (smax, ".safe" if mode == "safety" else ""), src="hdr/l01.c", defines=["S_MAX=%d" % smax], rename_defs=RN, no_shift_check=True,
                 extra_srcs=HDR_X, mode=mode, unwind=smax + 2, units=HDR_UNITS + ["decode_level0_header", "process_level0_path", "process_level0_extended_area", "decode_ftime", "check_l0_checksum"],
                 timeout=timeout, mem_gb=8, tier=tier, stubs=HDR_STUBS,
                 bounds="arbitrary input of 0..%d bytes, level byte 0 or 1 (all other bytes, lengths, checksum symbolic)" % smax)
@@ -63,3 +64,10 @@ def tail(ns=3, mode="functional", timeout=600, tier="both", leak=False):
                 stubs=["decode_level0..3_header: install arbitrary decoded fields (justified by l01/l2/l3/l1ext/walk/ext harnesses)", "calloc/free of the header block: typed static slot",
                        "sprintf(\"%s%s\"): concatenation model", "strdup: malloc+copy", "islower/tolower: ASCII"],
                 bounds="name and path strings of 0..%d arbitrary bytes each (name without '/'), present or absent; method, OS type, level, flags, permission words, common CRC over 4 raw bytes: all symbolic" % ns)
+
+
+def extend(n=4, mode="safety", timeout=300, tier="both"):
+    return dict(name="extend.move%d%s" % (n, ".safe" if mode == "safety" else ""), src="hdr/extend.c", defines=["L0=%d" % n, "NB=%d" % n], mode=mode, unwind=n + 2, malloc_may_fail=True, leak=True,
+                units=["lib/lha_file_header.c:extend_raw_data,lha_file_header_free"], timeout=timeout, mem_gb=4, tier=tier,
+                stubs=["realloc: CBMC's moving model (new block, old block freed), may return NULL", "lha_input_stream_read: writes the requested bytes into the destination or fails"],
+                bounds="old raw length 0..%d, stream 0..%d bytes, nbytes arbitrary (64 bit)" % (n, n))
